@@ -369,14 +369,19 @@ func endianOf(name string) (string, string) {
 // ops to functions (GoIR.opWriter / opReader) names the same function (Obl.ir_calls)
 var callLog = map[string]bool{}
 
+func logCall(write bool, name string, op Op) Op {
+	w := "false"
+	if write {
+		w = "true"
+	}
+	callLog[fmt.Sprintf("(%s, %q, %s)", w, name, leanOp(op))] = true
+	return op
+}
+
 func (c *ctx) primOp(write bool, name string, targs []string, rest []ast.Expr, valType string) (Op, bool) {
 	op, ok := c.primOp0(write, name, targs, rest, valType)
 	if ok {
-		w := "false"
-		if write {
-			w = "true"
-		}
-		callLog[fmt.Sprintf("(%s, %q, %s)", w, name, leanOp(op))] = true
+		logCall(write, name, op)
 	}
 	return op, ok
 }
@@ -761,7 +766,7 @@ func (c *ctx) encodeOps(fd *ast.FuncDecl) []Op {
 					ops = append(ops, c.opaque(s))
 					continue
 				}
-				ops = append(ops, Op{K: "objs", CW: scalarWidth(targs[0]), Ty: id, TyN: c.pi.short + "." + et, E: e, F: f})
+				ops = append(ops, logCall(true, name, Op{K: "objs", CW: scalarWidth(targs[0]), Ty: id, TyN: c.pi.short + "." + et, E: e, F: f}))
 				continue
 			}
 			op, ok := c.primOp(true, name, targs, args[2:], c.ftype[f])
@@ -899,7 +904,7 @@ func (c *ctx) readCallOp(s ast.Node, call ast.Expr, f string) Op {
 		if !ok || !ok2 || c.ftype[f] != "[]*"+t {
 			return c.opaque(s)
 		}
-		return Op{K: "objs", CW: scalarWidth(targs[0]), Ty: id, TyN: c.pi.short + "." + t, E: e, F: f}
+		return logCall(false, name, Op{K: "objs", CW: scalarWidth(targs[0]), Ty: id, TyN: c.pi.short + "." + t, E: e, F: f})
 	}
 	op, ok := c.primOp(false, name, targs, args[1:], "")
 	if !ok {
